@@ -65,6 +65,23 @@ def make_graph(rng, n, kind):
             for v in range(n):
                 if u != v:
                     G.add_edge(u, v)
+    elif kind == "multi_scc":
+        # two or three disjoint directed cycles of random lengths (length 1 = a self-loop), optionally joined by edges that
+        # go from an earlier cycle to a later one (so the strongly connected components stay the cycles)
+        order = [int(x) for x in rng.permutation(n)]
+        k = int(rng.integers(2, 4))
+        cuts = sorted(int(x) for x in rng.choice(np.arange(1, n), size=min(k - 1, n - 1), replace=False)) if n >= 2 else []
+        blocks = [order[a:b] for a, b in zip([0] + cuts, cuts + [n])]
+        for blk in blocks:
+            for a in range(len(blk)):
+                G.add_edge(blk[a], blk[(a + 1) % len(blk)])
+        for bi in range(len(blocks)):
+            for bj in range(bi + 1, len(blocks)):
+                if rng.random() < 0.4:
+                    G.add_edge(int(rng.choice(blocks[bi])), int(rng.choice(blocks[bj])))
+    elif kind == "pure_cycle":
+        for a in range(n):
+            G.add_edge(a, (a + 1) % n)
     elif kind == "one_edge":
         if n >= 2:
             u, v = [int(x) for x in rng.choice(n, 2, replace=False)]
@@ -101,6 +118,61 @@ def is_acyclic(adj):
     return not Q.any()
 
 
+def topo_order(adj):
+    """(acyclic?, topological order of the node INDICES, sources first) of the graph used, by networkx"""
+    n = adj.shape[0]
+    H = nx.DiGraph()
+    H.add_nodes_from(range(n))
+    H.add_edges_from((int(u), int(v)) for u, v in np.argwhere(adj != 0))
+    if not nx.is_directed_acyclic_graph(H):
+        return False, []
+    return True, [int(u) for u in nx.lexicographical_topological_sort(H)]
+
+
+def exact_power_vanishes(A):
+    """A^n == 0 in exact rational arithmetic (every float is a rational); sparse rows of Fractions"""
+    n = A.shape[0]
+    rows = [{j: Fraction(float(A[i, j])) for j in range(n) if A[i, j] != 0} for i in range(n)]
+    P = [dict(r) for r in rows]                      # A^1
+    for _ in range(n - 1):
+        if not any(P):
+            return True
+        Q = []
+        for i in range(n):
+            acc = {}
+            for k, a in P[i].items():
+                for j, b in rows[k].items():
+                    acc[j] = acc.get(j, 0) + a * b
+            Q.append({j: v for j, v in acc.items() if v != 0})
+        P = Q
+    return not any(P)
+
+
+def coqchk_extra(chk, pid):
+    """thorough tier: the independent checker on a second properties file (lib's Check.coqchk is tied to chk.pid)"""
+    import re
+    rc, out = lib.sh(["timeout", "2400", "coqchk", "-silent", "-o", "-Q", lib.COQ, "CE", f"CE.Properties.{pid}"], timeout=2500)
+    axioms, sect, flags = [], None, {}
+    for line in out.splitlines():
+        m = re.match(r"^\* (.*?):\s*(.*)$", line.strip())
+        if m:
+            sect = m.group(1)
+            if m.group(2):
+                flags[sect] = m.group(2)
+            continue
+        if sect == "Axioms" and line.strip():
+            axioms.append(line.strip())
+    short = [a.replace("Coq.Logic.", "").replace("Coq.Reals.", "").replace("Coq.Numbers.Cyclic.Int63.", "").replace("Coq.Floats.", "")
+             for a in axioms]
+    bad = [a for a in short if a not in lib.ALLOWED_AXIOMS and not a.startswith(lib.ALLOWED_AXIOM_PREFIXES)]
+    unsafe = [k for k, v in flags.items() if ("type-in-type" in k or "unsafe" in k or "positivity" in k) and v != "<none>"]
+    ok = rc == 0 and not bad and not unsafe
+    chk.oblige("coqchk", f"coqchk -o CE.Properties.{pid}", ok,
+               (f"axioms of all loaded libraries: {', '.join(short) or 'none'}" if ok else
+                f"rc={rc} bad axioms={bad} unsafe={unsafe} tail={out[-400:]}"))
+    chk.extra[f"coqchk_axioms_{pid}"] = short
+
+
 class Raised:
     """an exception raised by the implementation on an in-scope call is a property failure, not a machinery failure"""
     def __init__(self, e):
@@ -116,6 +188,16 @@ def call(f, *a, **kw):
 
 def head(X, k):
     return X[:k].tolist() if isinstance(X, np.ndarray) and X.ndim == 2 else repr(X)
+
+
+def logistic_first(n, p, seed):
+    """history: the module's third public generator is called first with the same (n, p, seed); its own behaviour is C19's
+    business, so whatever it does (or raises) is ignored here"""
+    from causationentropy.datasets.synthetic import logisic_dynamics
+    try:
+        logisic_dynamics(n=n, p=p, t=2, seed=seed)
+    except Exception:
+        pass
 
 
 def perturb_globals(rng):
@@ -181,7 +263,10 @@ def lin_pred(c, out, out2, out_eps2, R, W, adj):
         # exact: a matrix whose non-zero pattern has no directed cycle is nilpotent, i.e. has spectral radius 0
         if not is_acyclic((A != 0).astype(float)):
             return "acyclic graph but the returned A is not nilpotent (spectral radius 0 expected)"
+        if not exact_power_vanishes(A):
+            return f"acyclic graph but A^{n} != 0 in exact rational arithmetic: the returned A is not nilpotent (spectral radius 0 expected)"
         c["_radius"] = "acyclic:0"
+        c["_acyclic_measured_radius"] = r            # eigvals measurement, recorded (a nilpotent matrix is ill-conditioned: not a test)
     elif trustworthy:
         if abs(r - rho) > TOL * rho:
             return f"spectral radius of the returned A is {r!r}, expected rho = {rho!r}"
@@ -216,11 +301,12 @@ def lin_pred(c, out, out2, out_eps2, R, W, adj):
     return None
 
 
-def lin_case_term(c, adj, R, m, W, A, XY, rows, K):
+def lin_case_term(c, adj, R, m, W, A, XY, rows, K, acyclic, order):
     n = c["n"]
-    return ("(Build_lin_case {n} {T} {adj} {R} {rho} {m} {eps} {W} {A} {X} {K})".format(
+    return ("(Build_lin_case {n} {T} {adj} {R} {rho} {m} {eps} {W} {A} {X} {K} {ac} {order})".format(
         n=n, T=rows, adj=qmat(adj.tolist()), R=qmat(R.tolist()), rho=qlit(c["rho"]), m=qlit(m), eps=qlit(c["epsilon"]),
-        W=qmat(W[:rows].tolist()), A=qmat(A.tolist()), X=qmat(XY[:rows].tolist()), K=K))
+        W=qmat(W[:rows].tolist()), A=qmat(A.tolist()), X=qmat(XY[:rows].tolist()), K=K,
+        ac="true" if acyclic else "false", order=coq_list([f"{k}%nat" for k in order])))
 
 
 # ----------------------------------------------------------------------------------------------
@@ -301,22 +387,33 @@ def run(chk):
     from causationentropy.datasets.synthetic import linear_stochastic_gaussian_process as lin
     from causationentropy.datasets.synthetic import poisson_coupled_oscillators as poi
     rng = np.random.default_rng(chk.seed)
+    # tier 2 (mathcomp) theorems live in a file of their own; re-checked concurrently with the rest (own scratch directory)
+    from concurrent.futures import ThreadPoolExecutor
+    pool = ThreadPoolExecutor(max_workers=1)
+    mx_job = pool.submit(lib.check_theorems, "C18Mx")
     chk.theorems()
     quick = chk.tier == "quick"
     chk.trusted += ["Coq 8.16.1 kernel + vm_compute",
                     "RNG replay: numpy default_rng(seed) draws (uniform weights, standard normals, Poisson variates) are re-created "
                     "by the harness in the documented order and fed to the model as data; numpy's bit-streams are not modelled",
                     "networkx erdos_renyi_graph(n, p, seed=seed, directed=True) is re-run by the harness to obtain 'the graph used' when no graph is supplied",
-                    "spectral radius: numpy/scipy eigvals (with an eigenvalue-condition guard); abstract function with a scaling law on the Coq side",
+                    "spectral radius of CYCLIC samples: numpy/scipy eigvals (with an eigenvalue-condition guard) against rho; on the Coq side the "
+                    "radius is a proved function over any numClosedFieldType with its scaling law (Properties/C18Mx.v), but the float the code "
+                    "divides by is numpy's measurement of it, entering the model as data",
+                    "acyclic samples: 'the graph used is acyclic' and its topological order come from networkx in the harness; the order is "
+                    "CHECKED inside Coq against the adjacency of the graph used and against the returned matrix, and A^n = 0 is computed exactly in Coq",
+                    "GeneratorsMxBridge.v: Qrat (Q -> rat, num/den) is the identification of the list model's rationals with mathcomp's",
                     "float rounding: the model is exact rational arithmetic; algebraic relations are compared within 1e-9 relative"]
     chk.assumptions += ["0 < rho < 1, epsilon > 0, coupling >= 0, lambda_base >= 0, integer seeds, n >= 1, T >= 1",
                         "user-supplied graphs are unweighted (Di)Graphs with node labels 0..n-1 (inserted in any order); matrix index k = k-th node of G.nodes() (networkx convention)",
-                        "Poisson growth is kept below ~1e7 counts (T shortened for super-critical couplings) so that numpy's Poisson sampler accepts the rate"]
+                        "Poisson growth: T is shortened for super-critical couplings so that numpy's Poisson sampler accepts the rate "
+                        "(means kept below ~1e7 in the random cases, below 1e13 in the dedicated long super-critical runs; the sampler's limit is ~9.2e18)"]
 
     # ------------------------------------------------------------------ linear process
     n_lin = 70 if quick else 2500
     n_reg = 3 if quick else 40
-    KINDS = ["empty", "dag", "chain", "cycle", "selfloops", "complete", "one_edge", "undirected"]
+    KINDS = ["empty", "dag", "chain", "cycle", "selfloops", "complete", "one_edge", "undirected", "multi_scc"]
+    n_scc = 8 if quick else 150
     confs = [dict(rho=0.5, n=20, T=100, p=0.1, epsilon=0.1, seed=42, kind="default-call", eps2=0.7)]
     for _ in range(n_lin):
         big = rng.random() < (0.04 if quick else 0.02)
@@ -324,10 +421,16 @@ def run(chk):
         T = int(rng.integers(1, 121 if big else 61)) if rng.random() < 0.85 else int(rng.integers(1, 4))
         kind = "erdos_renyi" if rng.random() < 0.5 else str(rng.choice(KINDS))
         confs.append(dict(rho=float(rng.choice([0.5, 0.9, 0.05, 0.999, rng.uniform(0.01, 0.99)])), n=n, T=T,
-                          p=float(rng.choice([0.0, 0.1, 0.2, 0.5, 1.0, rng.random()])),
+                          p=float(rng.choice([0.0, 0.05, 0.1, 0.2, 0.5, 1.0, rng.random(), 0.3 * rng.random()])),
                           epsilon=float(rng.choice([0.1, 1.0, 1e-3, 10.0, 10 ** rng.uniform(-3, 1)])),
                           seed=int(rng.integers(0, 2 ** 31)) if rng.random() < 0.8 else int(rng.integers(0, 50)),
                           kind=kind, eps2=float(10 ** rng.uniform(-3, 1))))
+    for _ in range(n_scc):        # several cyclic strongly connected components: the dominant eigenvalue may sit in any of them
+        confs.append(dict(rho=float(rng.choice([0.5, 0.9, rng.uniform(0.05, 0.99)])), n=int(rng.integers(2, 11)), T=int(rng.integers(2, 30)),
+                          p=0.0, epsilon=float(10 ** rng.uniform(-2, 0)), seed=int(rng.integers(0, 2 ** 31)), kind="multi_scc",
+                          eps2=float(10 ** rng.uniform(-3, 1))))
+    for c in confs:               # histories: for Erdos-Renyi calls, sometimes another generator ran first with the same (n, p, seed)
+        c["history"] = "logisic_dynamics(n,p,seed) called first" if c["kind"] == "erdos_renyi" and rng.random() < 0.4 else "none"
     for _ in range(n_reg):
         confs.append(dict(rho=float(rng.uniform(0.3, 0.95)), n=int(rng.integers(1, 5)), T=4000, p=float(rng.choice([0.3, 0.6, 1.0])),
                           epsilon=float(10 ** rng.uniform(-2, 1)), seed=int(rng.integers(0, 2 ** 31)),
@@ -339,6 +442,9 @@ def run(chk):
         kw = dict(n=n, T=T, p=c["p"], epsilon=c["epsilon"], seed=c["seed"])
         if G is not None:
             kw["G"] = G
+        if c.get("history", "none") != "none":
+            logistic_first(n, c["p"], c["seed"])
+            chk.count("lin.history.logistic_generator_called_first_with_same_n_p_seed")
         if c["kind"] == "default-call":
             out = call(lin, c["rho"])
         else:
@@ -348,10 +454,14 @@ def run(chk):
         out3 = call(lin, c["rho"], **{**kw, "epsilon": c["eps2"]})
         Gu = graph_used(n, c["p"], c["seed"], G)
         adj = adjacency_of(Gu, n)
+        acyclic, order = topo_order(adj)
+        if acyclic != is_acyclic(adj):
+            raise RuntimeError("harness: networkx and the boolean-power test disagree on acyclicity")
         R, W = replay_linear(c["seed"], n, T)
         d = {"generator": "linear_stochastic_gaussian_process", "call": {k: v for k, v in c.items() if not k.startswith("_") and k != "kind"},
              "graph": c["kind"], "edges_u_to_v": [[int(u), int(v)] for u, v in Gu.edges()] if n <= 10 else "large",
-             "node_insertion_order": [int(u) for u in Gu.nodes()] if n <= 10 else "large", "undirected": not Gu.is_directed()}
+             "node_insertion_order": [int(u) for u in Gu.nodes()] if n <= 10 else "large", "undirected": not Gu.is_directed(),
+             "graph_is_acyclic": acyclic, "topological_order_of_indices": order if acyclic else None}
         try:
             fail = lin_pred(c, out, out2, out3, R, W, adj)
         except Exception as e:   # malformed output is a property failure, not a machinery failure
@@ -368,11 +478,11 @@ def run(chk):
                 rows = max(2, 240 // n)
             K = min(rows, max(2, 48 // n))
             # only the weights on edges matter (the model multiplies by adjacency^T); zeros keep the literal small
-            cases.append(lin_case_term(c, adj, R * (adj.T != 0), m, W, A, XY, rows, K))
+            cases.append(lin_case_term(c, adj, R * (adj.T != 0), m, W, A, XY, rows, K, acyclic, order))
             chk.count("lin.rows_compared_stepwise", rows)
             chk.count("lin.rows_compared_free_running", K)
         else:
-            cases.append("(Build_lin_case 0 1 [] [] 0 0 0 [] [] [] 0)")      # shape mismatch: rejected by the model side
+            cases.append("(Build_lin_case 0 1 [] [] 0 0 0 [] [] [] 0 false [])")      # shape mismatch: rejected by the model side
         d["radius_check"] = c.get("_radius")
         d["returned_A"] = np.asarray(A).tolist() if np.size(A) <= 36 else "large"
         desc.append(d)
@@ -384,6 +494,19 @@ def run(chk):
         if G is not None and list(G.nodes()) != sorted(G.nodes()):
             chk.count("lin.user_graph_nodes_inserted_out_of_order")
         chk.count("lin.radius." + str(c.get("_radius")))
+        ne = int(np.count_nonzero(adj))
+        src = "user_graph" if G is not None else "erdos_renyi"
+        chk.count(f"lin.{'acyclic' if acyclic else 'cyclic'}.{src}")
+        if acyclic:
+            chk.count("lin.acyclic.no_edge" if ne == 0 else "lin.acyclic.1_edge" if ne == 1 else "lin.acyclic.2+_edges")
+            chk.count(f"lin.acyclic.{src}.with_edges" if ne else f"lin.acyclic.{src}.no_edge")
+            if ok_shape:
+                chk.count("lin.acyclic.witness_and_exact_nilpotency_evaluated_in_coq")
+                depth = int(nx.dag_longest_path_length(nx.DiGraph([(int(u), int(v)) for u, v in np.argwhere(adj != 0)]))) if ne else 0
+                chk.count("lin.acyclic.longest_path_" + ("0" if depth == 0 else "1" if depth == 1 else "2" if depth == 2 else "3+"))
+            if "_acyclic_measured_radius" in c:
+                chk.extra["acyclic_measured_radius_max"] = max(chk.extra.get("acyclic_measured_radius_max", 0.0), c["_acyclic_measured_radius"])
+                chk.count("lin.acyclic.eigvals_measured_exactly_0" if c["_acyclic_measured_radius"] == 0.0 else "lin.acyclic.eigvals_measured_nonzero")
         chk.count("lin.n_le_3" if n <= 3 else "lin.n_4_8" if n <= 8 else "lin.n_9_20")
         chk.count("lin.T_1" if T == 1 else "lin.T_2_10" if T <= 10 else "lin.T_gt_10")
         if c.get("regress"):
@@ -404,6 +527,12 @@ def run(chk):
         pconfs.append(dict(n=n, T=T, p=float(rng.choice([0.0, 0.1, 0.2, 0.5, 1.0, rng.random()])), lambda_base=base,
                            coupling_strength=cpl, seed=int(rng.integers(0, 2 ** 31)) if rng.random() < 0.8 else int(rng.integers(0, 50)),
                            kind=kind))
+    for c in pconfs:
+        c["history"] = "logisic_dynamics(n,p,seed) called first" if c["kind"] == "erdos_renyi" and rng.random() < 0.4 else "none"
+    for _ in range(4 if quick else 60):      # long super-critical runs: the conditional mean passes 1e9 and keeps growing (<= 1e13)
+        pconfs.append(dict(n=int(rng.integers(1, 5)), T=400, p=0.0, lambda_base=float(rng.choice([2.0, 0.5, 5.0])),
+                           coupling_strength=float(rng.choice([2.0, 1.5, 3.0])), seed=int(rng.integers(0, 2 ** 31)),
+                           kind=str(rng.choice(["pure_cycle", "multi_scc", "cycle"])), history="none", long_run=True))
     runs = []
     for c in pconfs:
         n = c["n"]
@@ -413,11 +542,26 @@ def run(chk):
         indeg = float(adj.sum(axis=0).max()) if n else 0.0
         g = 1.0 + c["coupling_strength"] * indeg            # worst-case growth factor of the mean per step
         sr_mean = float(np.max(np.abs(np.linalg.eigvals(c["coupling_strength"] * adj)))) if n else 0.0
-        if sr_mean >= 0.9 and c["kind"] != "default-call":   # the mean dynamics m' = base + c A^T m is not safely contracting
+        if c.get("long_run"):
+            # exact mean recursion m_0 = base, m_t = max(0.1, base + c A^T m_(t-1)); stop before any mean exceeds 1e13
+            # (numpy's sampler accepts rates up to ~9.2e18; counts stay exactly representable)
+            mvec, T1 = np.full(n, c["lambda_base"]), 1
+            while T1 < c["T"]:
+                mvec = np.maximum(0.1, c["lambda_base"] + c["coupling_strength"] * (adj.T @ mvec))
+                if mvec.max() > 1e13:
+                    break
+                T1 += 1
+            c["T"] = T1
+            chk.count("poisson.long_supercritical_runs")
+            chk.extra["poisson_long_run_largest_mean"] = max(chk.extra.get("poisson_long_run_largest_mean", 0.0), float(mvec.max()))
+        elif sr_mean >= 0.9 and c["kind"] != "default-call":   # the mean dynamics m' = base + c A^T m is not safely contracting
             c["T"] = max(1, min(c["T"], int(math.log(1e6 / max(1.0, c["lambda_base"])) / math.log(g))))
         kw = dict(n=n, T=c["T"], p=c["p"], lambda_base=c["lambda_base"], coupling_strength=c["coupling_strength"], seed=c["seed"])
         if G is not None:
             kw["G"] = G
+        if c.get("history", "none") != "none":
+            logistic_first(n, c["p"], c["seed"])
+            chk.count("poisson.history.logistic_generator_called_first_with_same_n_p_seed")
         out = call(poi) if c["kind"] == "default-call" else call(poi, **kw)
         perturb_globals(rng)
         out2 = call(poi, **kw)
@@ -468,20 +612,36 @@ def run(chk):
     lib.correspond(chk, "poisson_model_rates_regenerate_counts", IMPORTS, "pois_case", f"check_pois_case {qlit(Fraction(1, 10 ** 12))}",
                    cases, pf, lambda i: desc[i], shard=10 if quick else 40, jobs=14, timeout=1500)
 
+    for r in mx_job.result():
+        chk.oblige("theorem", r["name"], r["ok"], r.get("error", "") or ("axioms: " + (", ".join(r["axioms"]) or "none")))
+        chk.extra.setdefault("theorem_axioms", {})[r["name"]] = r["axioms"]
+    pool.shutdown()
+    if chk.tier == "thorough":
+        coqchk_extra(chk, "C18Mx")
+
     chk.rule = (
         "Both generators are called through their public signatures: the default calls, Erdos-Renyi graphs from (n 1..20, p in {0,..,1}, seed) "
-        "and user-supplied graphs (empty, DAG, chain, cycle incl. n=1 self-loop, digraphs with self-loops, complete, single edge, undirected); "
+        "(p incl. 0.05..0.3 so that acyclic random graphs WITH edges occur) and user-supplied graphs (empty, DAG, chain, cycle incl. n=1 "
+        "self-loop, digraphs with self-loops, complete, single edge, undirected, several disjoint cycles / self-loops joined acyclically = "
+        "several cyclic strongly connected components); "
         "rho in (0,1) incl. 0.05 and 0.999, epsilon in [1e-3,10], T 1..120; Poisson lambda_base in [0,40] incl. values below the 0.1 floor, "
-        "coupling in [0,1.5] (T shortened when the coupling is super-critical). Each call is repeated with numpy's and Python's global RNG "
-        "state perturbed in between (determinism), and the linear process is re-run with a second epsilon (linearity). "
+        "coupling in [0,1.5] (T shortened when the coupling is super-critical), plus long super-critical runs (coupling 1.5..3 on cycles) whose "
+        "conditional means pass 1e9 and grow to <= 1e13. Each call is repeated with numpy's and Python's global RNG "
+        "state perturbed in between (determinism), 40% of the Erdos-Renyi calls are preceded by a call of the module's third generator "
+        "logisic_dynamics with the same (n, p, seed) (history), and the linear process is re-run with a second epsilon (linearity). "
         "Tie: the harness re-creates default_rng(seed) and draws the uniform weights, the standard-normal vectors and the Poisson variates in the "
         "documented order. Linear: inside Coq the exact-rational model (a) fed with the replayed noise and the RETURNED A reproduces the returned "
         "series within 1e-9*(eps+|x|) -- free-running on a prefix and step-wise on every row --, (b) rebuilds the returned A as "
-        "s*(adjacency^T o replayed weights) with s from the measured radius, (c) checks the support on the transposed graph. Poisson: the Coq model "
+        "s*(adjacency^T o replayed weights) with s from the measured radius, (c) checks the support on the transposed graph, (d) whenever the "
+        "graph used is acyclic (networkx; acyclic/cyclic counts by source in the statistics): the topological order supplied by the harness is "
+        "checked against the adjacency of the graph used AND against the returned matrix (dag_witness_ok: every non-zero A[i][j] has j strictly "
+        "before i) and A^n = 0 is computed in exact rational arithmetic (nilpotent_red_ok) -- by Properties/C18Mx.v that witness test means "
+        "char poly X^n, only eigenvalue 0, spectral radius 0. Poisson: the Coq model "
         "computes the rate table from the returned counts and matrix; those rates pushed through the replayed rng.poisson must regenerate the "
         "returned counts exactly, and the returned matrix must equal the 0/1 adjacency of the graph used. "
         "Predicate on the implementation (no model involved): shapes, determinism, support/orientation, spectral radius rho by numpy "
-        "(exactly nilpotent if the graph is acyclic; skipped with a count when the eigenvalue is ill-conditioned), X_t - A X_(t-1) = eps * replayed normal within 1e-9, "
+        "(if the graph is acyclic: the non-zero pattern of A has no directed cycle and A^n = 0 in exact Fractions, numpy's eigvals value only "
+        "recorded; skipped with a count when the eigenvalue is ill-conditioned), X_t - A X_(t-1) = eps * replayed normal within 1e-9, "
         "X(eps2)/eps2 = X(eps)/eps, integer non-negative counts, A = 0/1 adjacency, counts regenerated by the replayed Poisson draws with mean "
         "max(0.1, base + c * sum_j A[j,i] X[t-1,j]). Statistical: OLS of X_t on X_(t-1) at T=4000 must be within 8 standard errors of the returned A "
         f"entrywise (two-sided Gaussian tail 1.3e-15 per entry; <= 16 entries x {n_reg} runs: error budget < 1e-9). "
